@@ -310,7 +310,14 @@ def emit_fn(asm, fnrec, sig, body, contract, ret_name):
             raise ExtractError('%s: no `Ok(<struct> {` exit found for the injected exit assertion' % fnrec.name)
         for pos in reversed(sites):
             ls = body.rfind('\n', 0, pos) + 1
-            body = body[:ls] + txt + '\n' + body[ls:]
+            t_ = txt
+            if '$OK' in t_:
+                # $OK stands for the value returned at this exit (the argument of `Ok(`), read in spec mode
+                op_ = mbody.index('(', pos)
+                cp_ = rsx.match_close(mbody, op_)
+                ok_ = re.sub(r'(?<![A-Za-z0-9_])([a-z_][a-z0-9_]*)\.is_empty\(\)', r'(\1@.len() == 0)', body[op_ + 1:cp_].strip())
+                t_ = t_.replace('$OK', '(' + ok_ + ')')
+            body = body[:ls] + t_ + '\n' + body[ls:]
     for h in contract['hints']:
         try:
             body = insert_at_anchor(body, h['where'], h['anchor'], h['nth'], '\n'.join(h['text']))
@@ -462,6 +469,22 @@ def assemble(unit_path, repo=REPO):
                     continue
                 asm.add('impl SwiftField for %s { uninterp spec fn parse_ok(v: Seq<char>) -> bool; uninterp spec fn parse_val(v: Seq<char>) -> Self; }' % n_)
             asm.add('// ---- end declared-assumption')
+            if 'nf' in toks[1:]:
+                # C01 linearity: the number of field occurrences a value holds -- 1 for a field type, the sum of the members
+                # for the message / sequence structs (read off the struct definitions of the real code)
+                asm.add('// ---- field-occurrence count of the parsed values (generated from the struct definitions)')
+                for n_ in names:
+                    asm.add('impl NF for %s { open spec fn nf(&self) -> nat { 1 } }' % n_)
+                for n_ in sorted(getattr(asm, 'types_seen', set())):
+                    if n_ in impls or idx.get(n_, ('', ''))[1] != 'struct' or not idx[n_][0].startswith('src/messages/'):
+                        continue
+                    txt = rsx.strip_attrs(rsx.strip_comments(rsx.Source.get(os.path.join(repo, idx[n_][0])).item('struct', n_)))
+                    members = []
+                    for mn_, mt_ in re.findall(r'pub\s+([a-z_][a-z0-9_]*)\s*:\s*([^,\n]+)', txt):
+                        base_ = re.sub(r'(Option|Vec)\s*<|>|\s', '', mt_)
+                        if base_ in impls or (idx.get(base_, ('', ''))[1] in ('struct', 'type', 'enum') and idx[base_][0].startswith(('src/messages/', 'src/fields/'))):
+                            members.append(mn_)
+                    asm.add('impl NF for %s { open spec fn nf(&self) -> nat { %s } }' % (n_, ' + '.join('self.%s.nf()' % m_ for m_ in members) or '0'))
             asm.manual.append('declared assumption (unit stub): %d field types implement the abstract SwiftField contract' % len(names))
             i += 1
         elif d == 'props':
